@@ -26,8 +26,29 @@ def oracle(line: str, obs: Obs):
     dpr_seen = set()
     stopping = False
     simple = True
+    ce_count: dict = {}
+    dialled_as: dict = {}
+    # why each peer was last disconnected, worked out from the events alone: "DPR" when the peer announced it on the
+    # connection that then ended, None once a new connection of the peer has completed its capabilities exchange
+    my_reason = {n: None for n in peers}
     for ev, lines in obs.blocks:
         t = ev.split(" ")
+        if t[0] == "rx":
+            # a second CER/CEA on one connection, or a CEA claiming another identity than the peer that was dialled, is
+            # outside the histories the property speaks about: nothing is judged from there on
+            for d in t[2:]:
+                try:
+                    m0 = parse_msg(d)
+                except Exception:  # noqa
+                    continue
+                if m0["cmd"] == 257:
+                    ce_count[t[1]] = ce_count.get(t[1], 0) + 1
+                    dn = dialled_as.get(f"c{t[1]}")
+                    oh = m0["keys"].get("oh")
+                    if not m0["R"] and dn and oh is not None and oh.lower() != dn.lower():
+                        return fails
+            if any(v > 1 for v in ce_count.values()):
+                return fails
         if t[0] == "adv":
             now += int(t[1])
         if t[0] in ("req",):
@@ -37,8 +58,10 @@ def oracle(line: str, obs: Obs):
         before_p = {n: dict(v) for n, v in pstate.items()}
         before_c = dict(cstate)
         conns = {l.split(" ")[1]: kv(l) for l in lines if l.startswith("CONN ")}
-        for d in conns.values():
+        for k0, d in conns.items():
             d["name"] = canon.get(d["name"].lower(), d["name"])
+            if d["dir"] == "S" and d["name"] != "-":
+                dialled_as[k0] = d["name"]
         newc = [k for k in conns if k not in known_conns]
         known_conns |= set(conns)
         dialled = {}
@@ -65,6 +88,10 @@ def oracle(line: str, obs: Obs):
             if conns[k]["dir"] == "S" and conns[k]["live"] == "0" and conns[k]["name"] in pstate:
                 pstate[conns[k]["name"]]["last_disc"] = now
         for k, d in conns.items():
+            if d["state"] in ("READY", "WAITDWA") and before_c.get(k) not in ("READY", "WAITDWA", "DISCONNECTING"):
+                own = canon.get((d["name"] if d["name"] != "-" else d.get("ident", "-")).lower())
+                if own in my_reason:
+                    my_reason[own] = None           # a completed capabilities exchange starts a new life of the peer
             cstate[k] = d["state"]
         # DPR handling
         if t[0] == "rx" and len(t) == 3:
@@ -78,6 +105,8 @@ def oracle(line: str, obs: Obs):
                     fails.append({"what": "connection still offered for routing (ready state) after a DPR", "event": ev[:200],
                                   "real": str(conns.get(c))})
                 owner = next((n for n, v in pstate.items() if v["conn"] == c or before_p[n]["conn"] == c), None)
+                if owner and my_reason.get(owner) is None:
+                    my_reason[owner] = "DPR"
                 if owner and pstate[owner]["reason"] != "DPR":
                     fails.append({"what": "peer's disconnect reason does not record the DPR", "event": ev[:200],
                                   "real": str(pstate[owner])})
@@ -102,7 +131,7 @@ def oracle(line: str, obs: Obs):
             for n, p in peers.items():
                 b = before_p[n]
                 due = (p["persistent"] and b["conn"] == "-" and b["last_disc"] is not None
-                       and now - b["last_disc"] >= p["wait"] and not (b["reason"] == "DPR" and not p["always"]) and p["addr"])
+                       and now - b["last_disc"] >= p["wait"] and not (my_reason.get(n) == "DPR" and not p["always"]) and p["addr"])
                 got = dialled.get(n, 0)
                 if due and got != 1:
                     fails.append({"what": f"persistent peer {n} not dialled although its reconnect wait ({p['wait']} s) has elapsed",
@@ -183,6 +212,13 @@ def scenarios(rng: random.Random, tier: str):
                        nodegen.cea(2001, name, n(), n()) + " | adv 1")
             out.append(base + f" | rerr 0 hard | dial fail,fail | adv {wait} | adv 1 | adv {wait} | adv {wait}")
             out.append(base + " | rx 0 " + nodegen.dpr(n(), n(), name) + f" | eof 0 | adv {wait - 1} | adv 1 | adv {wait}")
+    # after a DPR the (persistent, not always-reconnect) peer comes back by itself, then that connection is lost without a
+    # DPR: the old DPR no longer counts, the peer is dialled again after the wait
+    for wait in (2, 5):
+        for loss in ("eof 2", "rerr 2 hard"):
+            out.append(cfg_line(1, 0, wait) + " | start ok,ok | rx 0 " + nodegen.cea(2001, "peer1.x", n(), n()) + " | rx 0 " +
+                       nodegen.dpr(n(), n()) + f" | eof 0 | adv {wait} | acc | rx 2 " + nodegen.cer("peer1.x", "4", n(), n()) +
+                       f" | tick | {loss} | adv {wait - 1} | adv 1 | adv {wait}")
     # a peer that is not persistent connects by itself and is lost (any way): it is never dialled, whatever always_reconnect says
     for always in (0, 1):
         for wait in (2, 5):
